@@ -204,7 +204,8 @@ pub open spec fn as_ref_view<A: core::marker::PointeeSized>(a: &A) -> Seq<u8> { 
 #[verifier::external_trait_specification]
 pub trait ExAsRef<T: core::marker::PointeeSized>: core::marker::PointeeSized {
     type ExternalTraitSpecificationFor: AsRef<T>;
-    fn as_ref(&self) -> &T;
+    fn as_ref(&self) -> (r: &T)
+        ensures as_ref_pinned::<Self, T>() ==> r == as_ref_spec::<Self, T>(self);
 }
 /// std: Vec<u8> and references to AsRef types view as their content
 pub broadcast axiom fn axiom_as_ref_vec(v: &Vec<u8>)
